@@ -306,6 +306,12 @@ def subscribe (g : G) (s j p pi : Nat) : G × Res :=
   else if isFuture g s then register g s j p pi
   else publish g p pi ⟨s, .apply j⟩
 
+/-- `p[pi].publish(s, Apply(k))` (the publishing side of the port API; a `Future` subscriber registers the
+publisher under the `Apply`-typed index `k`) -/
+def publishOp (g : G) (p pi s k : Nat) : G × Res :=
+  if g.nodes.length ≤ s ∨ g.nodes.length ≤ p then (g, .err .noNode)
+  else publish g p pi ⟨s, .apply k⟩
+
 /-- `Worker.train(train, label)`: the train publish is withdrawn again when the label publish raises -/
 def train (g : G) (n tp ti lp li : Nat) : G × Res :=
   if !isWorker g n ∨ g.nodes.length ≤ tp ∨ g.nodes.length ≤ lp then (g, .err .noNode)
@@ -324,14 +330,13 @@ def train (g : G) (n tp ti lp li : Nat) : G × Res :=
 def outputs (g : G) (n : Nat) : List (List Sub) :=
   (List.range (g.nodes.getD n default).szout).map (out g n)
 
-/-- `Node.__eq__`: identity, except that a `Future` and a `Worker` are equal when they have the same
-(non-zero) number of output ports holding equal subscriptions (`any(self._output)` is a tuple of `Port`
-objects, i.e. true iff `szout > 0`). -/
+/-- `Node.__eq__`: identity, except that a `Future` and a `Worker` are equal when they have the same number of
+output ports holding equal subscriptions, at least one of them non-empty (`any(self.output)`). -/
 def eqNode (g : G) (a b : Nat) : Bool :=
   a == b ||
     ((isWorker g a && isFuture g b || isFuture g a && isWorker g b) &&
       (g.nodes.getD a default).szout == (g.nodes.getD b default).szout &&
-      (g.nodes.getD a default).szout != 0 && outputs g a == outputs g b)
+      (outputs g a).any (fun l => !l.isEmpty) && outputs g a == outputs g b)
 
 /-- `node in <set of nodes>`: `Node.__hash__` = `hash(szin) ^ hash(szout)`, then `__eq__` -/
 def memNode (g : G) (n : Nat) (ms : List Nat) : Bool :=
@@ -448,6 +453,8 @@ inductive Op where
   | fork (n : Nat)
   /-- `s[j].subscribe(p[pi])` -/
   | subscribe (s j p pi : Nat)
+  /-- `p[pi].publish(s, Apply(k))` -/
+  | publish (p pi s k : Nat)
   /-- `n.train(tp[ti], lp[li])` -/
   | train (n tp ti lp li : Nat)
   | segment (h : Nat) (t : Option Nat)
@@ -459,6 +466,7 @@ def step (g : G) : Op → G × Res
   | .mkFuture i o => mkFuture g i o
   | .fork n => fork g n
   | .subscribe s j p pi => subscribe g s j p pi
+  | .publish p pi s k => publishOp g p pi s k
   | .train n tp ti lp li => train g n tp ti lp li
   | .segment h t => (g, segment g h t)
   | .validate h t => (g, validate g h t)
